@@ -2,6 +2,7 @@
 // construction) against an independent NFA-based reference matcher over the same AST; escape law;
 // uniqueness laws (IsPatternUnique / IsPatternListOfUniqueValues / "can match multiple").
 #include "engine/harness.h"
+#include "regex/SegmentedStringMatcher.h"
 #include "regex/StringMatcher.h"
 #include "system/SetupSystem.h"
 #include "syslog/SysLog.h"
@@ -179,6 +180,29 @@ static void RunRanges(BS & bs)
    if ((matched)&&(missed)) {vf::NonTrivial(vf::HashStr(pat, 0x51)); if (vf::WantSample()) vf::Sample("range pattern ["+pat+"]");}
 }
 
+// SegmentedStringMatcher: level-by-level matching of a '/'-segmented pattern against a '/'-segmented path.  Reference: one StringMatcher per segment (whose own
+// semantics the other modes of this harness judge); the uniqueness report is held against every path of the same number of segments over a small alphabet.
+static void RunSegmented(BS & bs)
+{
+   static const char * const SEGS[] = {"*", "a", "b", "a*", "?", "a\\*", "[ab]", "ab", "(a|b)", "b*", "a,b"};     // (a leading ~ negates the whole segmented match, not its first segment: not generated)
+   static const char * const SUBJ[] = {"a", "b", "ab", "a*", "c", "aa"};
+   const uint32 n = 1+bs.u8()%3; std::vector<std::string> segs; std::string pat; for (uint32 i=0; i<n; i++) {segs.push_back(SEGS[bs.u8()%11]); if (i) pat += "/"; pat += segs[i];}
+   SegmentedStringMatcher ssm; if (ssm.SetPattern(pat.c_str()).IsError()) vf::Fail("SegmentedStringMatcher rejects [%s]", pat.c_str());
+   std::vector<StringMatcher *> ref; bool allUnique = true; for (uint32 i=0; i<n; i++) {StringMatcher * sm = new StringMatcher(segs[i].c_str()); ref.push_back(sm); if (sm->IsPatternUnique() == false) allUnique = false;}
+   if (ssm.IsPatternUnique() != allUnique) vf::Fail("SegmentedStringMatcher [%s] reports unique=%d, its segments say %d", pat.c_str(), (int)ssm.IsPatternUnique(), (int)allUnique);
+   uint32 total = 1; for (uint32 i=0; i<n; i++) total *= 6; uint32 matches = 0; std::string firstMatch;
+   for (uint32 k=0; k<total; k++)
+   {
+      std::string path; bool expect = true; uint32 q = k; for (uint32 i=0; i<n; i++) {const char * sj = SUBJ[q%6]; q /= 6; if (i) path += "/"; path += sj; if (ref[i]->Match(sj) == false) expect = false;}
+      const bool got = ssm.Match(path.c_str(), false);
+      if (got != expect) vf::Fail("SegmentedStringMatcher [%s] %s [%s], segment by segment it %s", pat.c_str(), got ? "matches" : "does not match", path.c_str(), expect ? "matches" : "does not");
+      if (got) {if (matches++ == 0) firstMatch = path;}
+   }
+   if ((ssm.IsPatternUnique())&&(matches > 1)) vf::Fail("SegmentedStringMatcher [%s] reports itself unique but matches %u of the %u paths (e.g. [%s])", pat.c_str(), matches, total, firstMatch.c_str());
+   for (uint32 i=0; i<n; i++) delete ref[i];
+   vf::Count("mode_segmented_matcher"); if (n >= 2) {vf::NonTrivial(vf::HashStr(pat, 4242)); if (vf::WantSample()) vf::Sample("segmented pattern ["+pat+"] against "+std::to_string(total)+" paths");}
+}
+
 // The law the node-tree traversal relies on (C05), on raw pattern strings: a pattern that reports itself unique matches exactly RemoveEscapeChars(pattern), and a
 // pattern that reports itself a list of unique values matches exactly its unescaped comma parts -- judged against every string of up to 3 symbols of the alphabet.
 static void RunRawUniqueness(BS & bs)
@@ -204,7 +228,7 @@ extern "C" int vf_run_case(const uint8_t * data, size_t size)
    BS bs(data, size);
    const uint8_t mode = bs.u8()%8;
    if (mode == 7) {RunRanges(bs); return 0;}
-   if (mode == 5) {RunRawUniqueness(bs); return 0;}
+   if (mode == 5) {if (bs.u8()&1) RunSegmented(bs); else RunRawUniqueness(bs); return 0;}
    if (mode == 6)
    {
       // escape law on arbitrary byte strings (no NUL): the escaped string is a pattern that matches that string and no other, and is reported unique
